@@ -466,10 +466,19 @@ def c15_others(rep, d, inputs, tier):
             args = ["min", "-i", paths["fa"], "-o", out, "-m", str(o["m"]), "-w", str(o["w"]), "-p", o["preset"], "-t", str(o["t"])]
         else:
             args = ["ctr", "-i", paths["fa"], "-o", out, "-k", str(o["k"]), "-m", str(o["mem"]), "-t", str(o["t"])] + (["--acgt"] if o["acgt"] else [])
+        # every other run (by its settings) finds the results of an earlier, different run at its output location
+        stale = sum(len(str(v)) + (v if isinstance(v, int) else 0) for v in o.values()) % 2 == 0
+        if stale:
+            if kind in ("cov", "ctr"):
+                os.makedirs(out)
+                open(os.path.join(out, "kmers.counts"), "wb").write(b"".join(b"%d\t%d\n" % (1000 + i, 7) for i in range(3000)))
+                open(os.path.join(out, "kmers.vectors"), "wb").write(b"0.250000 0.250000 0.250000 0.250000 0.000000\n" * 2000)
+            else:
+                open(out, "wb").write(b"left over from an earlier run\n" * 3000)
         rc, so, err, to = cli(args, timeout=60)
         rep.ev(1, 1)
         a = {"kind": kind, "name": name, "o": o}
-        cmdline = "kmertools " + " ".join(args)
+        cmdline = "kmertools " + " ".join(args) + (" [output location holds an earlier run's results]" if stale else "")
         if to or rc != 0:
             rep.violation("accepted-options-failed", 5, "%s: exit %s (timeout=%s) stderr %r" % (cmdline, rc, to, err[-300:]), "c15_other", a)
             shutil.rmtree(wd, ignore_errors=True)
@@ -727,6 +736,14 @@ def c16_check(variant, recs, t, wd, final_newline=True):
         data = data[:-1]
     open(inp, "wb").write(data)
     out = os.path.join(wd, "out")
+    # half of the cases (by content) find the results of an earlier, larger run at the output location
+    if (len(data) + t) % 2 == 0:
+        if name in ("cov", "ctr"):
+            os.makedirs(out)
+            open(os.path.join(out, "kmers.counts"), "wb").write(b"".join(b"%d\t%d\n" % (1000 + i, 7) for i in range(3000)))
+            open(os.path.join(out, "kmers.vectors"), "wb").write(b"0.250000 0.250000 0.250000 0.250000 0.000000\n" * 2000)
+        else:
+            open(out, "wb").write(b"0.031250 0.031250 left over from an earlier run\n" * 3000)
     stdin = None
     odelim, oheader = b" ", False
     if name == "oligo":
@@ -1002,6 +1019,7 @@ def c17_runs(inputs):
         "cov big k7 counts (cli)": (cli_run(["cov", "-i", big, "-o", "@", "-k", "7", "-s", "5", "-c", "6", "--counts", "-t", "3"]), ["kmers.counts", "kmers.vectors"]),
         "cov small alt=big k9": (cli_run(["cov", "-i", small, "-a", big, "-o", "@", "-k", "9", "-s", "5", "-c", "5"]), ["kmers.counts", "kmers.vectors"]),
         "cov small k9": (cli_run(["cov", "-i", small, "-o", "@", "-k", "9", "-s", "5", "-c", "5", "-t", "2"]), ["kmers.counts", "kmers.vectors"]),
+        "cov small k9 -m 128": (cli_run(["cov", "-i", small, "-o", "@", "-k", "9", "-s", "5", "-c", "5", "-m", "128"]), ["kmers.counts", "kmers.vectors"]),
         "cov small alt=clean k9": (cli_run(["cov", "-i", small, "-a", clean_b, "-o", "@", "-k", "9", "-s", "5", "-c", "5"]), ["kmers.counts", "kmers.vectors"]),
         "ctr tiny k12 (no k-mer)": (cli_run(["ctr", "-i", tiny, "-o", "@", "-k", "12", "-t", "2"]), ["kmers.counts"]),
         "cov no records k7": (cli_run(["cov", "-i", none, "-o", "@", "-k", "7"]), ["kmers.counts", "kmers.vectors"]),
@@ -1015,6 +1033,7 @@ C17_EQUIVALENT = [
     ["kcgr big k4 -c", "kcgr big k4 -c lib 1 thread 60-base batches"],
     ["cgr big", "cgr big lib 3 threads 30-base batches"],
     ["ctr small k10 (cli)", "ctr small k10 few chunks keep temp", "ctr small k10 tiny ceiling delete"],
+    ["cov small k9", "cov small k9 -m 128"],
 ]
 
 
